@@ -1089,6 +1089,10 @@ func (e *cenv) call(x *cCall) val {
 		}
 		k := g.registerElemKey(u.Elem())
 		return e.noteLoad(val{fmt.Sprintf("(select (select %s (s_arr %s)) %s)", g.read(e.st, k), b.t, j.t), u.Elem(), g.sortOf(u.Elem())})
+	case "iszero":
+		// iszero(e): e is the zero value of its (Go) type
+		v := e.tr(x.args[0])
+		return val{fmt.Sprintf("(= %s %s)", v.t, g.zero(v.typ)), tBool, "Bool"}
 	case "allocated":
 		// the object exists in the current state (its reference is below the
 		// allocation watermark)
